@@ -58,6 +58,10 @@
  * every row it processes (1, with the visit counter after the increment) and
  * every row-delay adjustment of a visit counter (2, with the new counter). */
 void (*libxmp_verif_scanlog)(int what, int ord, int row, int value) = NULL;
+/* Verification hook H6: told the outcome of every scan_module call made by
+ * libxmp_scan_sequences: entry point, sequence number, time, and the
+ * sequence_control array as that call left it. */
+void (*libxmp_verif_seqlog)(int ep, int seq, int time, const unsigned char *control, int len) = NULL;
 #endif
 
 static int scan_module(struct context_data *ctx, int ep, int chain)
@@ -774,6 +778,11 @@ int libxmp_scan_sequences(struct context_data *ctx)
 	}
 #endif
 
+#ifdef LIBXMP_VERIF
+	if (libxmp_verif_seqlog)
+		libxmp_verif_seqlog(0, 0, p->scan[0].time, p->sequence_control, mod->len);
+#endif
+
 	if (p->scan[0].time < 0) {
 		D_(D_CRIT "scan was not able to find any valid orders");
 		return -1;
@@ -792,6 +801,10 @@ int libxmp_scan_sequences(struct context_data *ctx)
 			ep = i;
 			temp_ep[seq] = ep;
 			p->scan[seq].time = scan_module(ctx, ep, seq);
+#ifdef LIBXMP_VERIF
+			if (libxmp_verif_seqlog)
+				libxmp_verif_seqlog(ep, seq, p->scan[seq].time, p->sequence_control, mod->len);
+#endif
 			if (p->scan[seq].time > 0)
 				seq++;
 		} else {
